@@ -1,6 +1,7 @@
 """C14 runner — executes ONE history of public QuCumber operations in a fresh interpreter.
 
-stdin : {"ops": [<op>, ...], "workdir": "<dir for saved files>"}
+stdin : {"ops": [<op>, ...], "workdir": "<dir for saved files>", "env": <name of a process-global environment of harness/common.py ENVS, or null>}
+        (the whole history — constructions included — is executed INSIDE that environment: default dtype float64 / no_grad / another cwd)
 stdout: one JSON line {"records": [<per-op record>, ...], "final_params": [...]}
 
 Per operation it records (nothing here uses numpy's or Python's global generators, except the
@@ -33,6 +34,7 @@ from qucumber.utils import training_statistics as ts  # noqa: E402
 from qucumber.utils import unitaries  # noqa: E402
 
 torch.set_num_threads(1)
+START_CWD = os.getcwd()
 
 # ------------------------------------------------------------------ recorders (pass-through)
 CALLS = []
@@ -54,6 +56,26 @@ def _wrap_numel(name):
 for _n in ("bernoulli", "randn", "randperm", "randint", "rand", "normal", "multinomial", "rand_like", "randn_like",
            "randint_like", "poisson"):
     _wrap_numel(_n)
+
+
+def _wrap_tensor_method(name, inplace):
+    """the same generator reached through a Tensor method (`p.bernoulli()`, `x.bernoulli_(0.5)`, `x.normal_()`, `x.random_(2)` …): a
+    stream-identical rewrite of `torch.bernoulli(p)` must record the same number of elements (the C++ kernels of the module-level
+    functions do not pass through these Python attributes, so nothing is counted twice)"""
+    orig = getattr(torch.Tensor, name)
+
+    def w(self, *a, **k):
+        r = orig(self, *a, **k)
+        CALLS.append(["Tensor." + name, int((self if inplace else r).numel())])
+        return r
+
+    w.__wrapped__ = orig
+    setattr(torch.Tensor, name, w)
+
+
+for _n, _ip in (("bernoulli", False), ("multinomial", False), ("bernoulli_", True), ("normal_", True), ("random_", True), ("uniform_", True),
+                ("exponential_", True), ("geometric_", True), ("cauchy_", True), ("log_normal_", True)):
+    _wrap_tensor_method(_n, _ip)
 
 
 def _wrap_seed(mod, name, label):
@@ -294,6 +316,17 @@ def public_api():
         for n, mem in inspect.getmembers(cls):
             if not n.startswith("_") and callable(mem):
                 names.add(f"state.{n}")
+    # ... and the public methods of the anchored RBM classes: `NeuralStateBase.__getattr__` forwards every name a state does not
+    # define to `rbm_am`, so `state.gibbs_steps(...)`, `state.initialize_parameters()`, `state.effective_energy(v)` … are public
+    # operations on a state too (torch.nn.Module's own members are not the library's)
+    import torch.nn as nn
+    from qucumber.rbm import BinaryRBM, PurificationRBM
+
+    module_members = {n for n, _ in inspect.getmembers(nn.Module)}
+    for cls in (BinaryRBM, PurificationRBM):
+        for n, mem in inspect.getmembers(cls):
+            if not n.startswith("_") and callable(mem) and n not in module_members:
+                names.add(f"rbm.{n}")
     for n, cls in inspect.getmembers(obsmod, inspect.isclass):
         if n.startswith("_"):
             continue
@@ -407,6 +440,8 @@ def do_op(op, states, workdir):
         c = "state.fit"
         kw = {}
         data = tens(op["data"])
+        if op.get("np_data"):  # the DOCUMENTED type of `data` is numpy.ndarray (branch `torch.tensor(data, …)` of fit)
+            data = np.array(op["data"], dtype=np.float64)
         ev = op.get("evaluator")
         cbs = []
         if ev is not None:  # a callback that SAMPLES inside the epoch loop (Observable statistics every `period` epochs)
@@ -468,6 +503,27 @@ def do_op(op, states, workdir):
             return F.call(c, st.subspace_vector, [], [F.int(c, "num", op["num"], allowed=A_STAT), F.int(c, "size", op.get("size"))], legacy_pos=1)
         if w == "compute_normalization":
             return st.compute_normalization(st.generate_hilbert_space())
+        if w.startswith("fwd_"):
+            # a public method of the anchored RBM class, called ON THE STATE: `NeuralStateBase.__getattr__` forwards every name the
+            # state does not define to `rbm_am`, so these are public operations on a state as well (read-only evaluators, no draws)
+            name = w[4:]
+            if name in vars(type(st)) or any(name in vars(c) for c in type(st).__mro__[:-1]):
+                raise KeyError(f"{name} is defined on the state class: not a forwarded call")
+            f = getattr(st, name)
+            rbm = st.rbm_am
+            hid = lambda m: torch.tensor([[float((3 * i + 5 * j + len(op["rows"])) % 2) for j in range(m)] for i in range(len(op["rows"]))],  # noqa: E731
+                                         dtype=torch.double)
+            if name in ("effective_energy", "effective_energy_gradient", "prob_h_given_v", "prob_a_given_v", "mixing_term"):
+                return f(v)
+            if name == "partition":
+                return f(st.generate_hilbert_space())
+            if name == "prob_v_given_h":
+                return f(hid(rbm.num_hidden))
+            if name == "prob_v_given_ha":
+                return f(hid(rbm.num_hidden), hid(rbm.num_aux))
+            if name in ("gamma", "gamma_grad"):
+                return f(v, tens(op["rows2"]))
+            raise KeyError(w)
         raise KeyError(w)
     if t == "metric":
         w = op["what"]
@@ -522,6 +578,8 @@ def do_op(op, states, workdir):
             return F.call(c, st.pi_grad, [v, tens(op["rows2"])], [F.flag(c, "phase", op.get("phase", False)), F.flag(c, "expand", op.get("expand", False))])
         raise KeyError(w)
     if t == "batchGradient":
+        if op.get("fwd"):  # `state.gibbs_steps(k, chains)`: the RBM's method reached through the state's attribute forwarding
+            return st.gibbs_steps(op["k"], tens(op["neg"]))
         v = tens(op["rows"])
         neg = tens(op["neg"])
         b = bases_arr(op["bases"]) if op.get("bases") is not None else None
@@ -556,9 +614,16 @@ def source_fingerprint():
 
 
 def main():
-    src_start = source_fingerprint()
     req = json.loads(sys.stdin.read())
-    workdir = req["workdir"]
+    from harness import common
+
+    with common.environment(req.get("env")):
+        _main(req)
+
+
+def _main(req):
+    src_start = source_fingerprint()
+    workdir = os.path.abspath(req["workdir"])
     os.makedirs(workdir, exist_ok=True)
     states = []
     records = []
@@ -594,6 +659,7 @@ def main():
         rec["seeds"] = [list(s) for s in SEEDS]
         records.append(rec)
     sys.stdout.write("C14RESULT " + json.dumps({"records": records, "final_params": [param_hash(s) for s in states],
+                                                "env": [req.get("env"), str(torch.get_default_dtype()), bool(torch.is_grad_enabled()), os.getcwd() != START_CWD],
                                                 "repo": qc.REPO, "module": os.path.dirname(qucumber.__file__), "api": public_api(),
                                                 "src": [src_start, source_fingerprint()]}) + "\n")
 
